@@ -41,7 +41,7 @@ impl Check for C11 {
     fn cases(&self, tier: Tier) -> u64 {
         match tier {
             Tier::Quick => 80_000,
-            Tier::Thorough => 240_000,
+            Tier::Thorough => 800_000,
         }
     }
     fn langs(&self) -> Vec<&'static str> {
